@@ -93,6 +93,63 @@ theorem step_framed {P Q : String → Prop} {l : Line} {m m' : Cfg} {o : Out} (h
     · simp only [Option.some.injEq, Prod.mk.injEq] at h; obtain ⟨_, rfl⟩ := h
       exact ⟨fun _ _ => rfl, rfl, fun _ hs => hs⟩
     · simp at h
+  case dvcIncr =>
+    simp only [stepSimple] at h
+    split at h
+    · simp only [Option.some.injEq, Prod.mk.injEq] at h; obtain ⟨_, rfl⟩ := h
+      exact framed_set P Q _ m _ _ (ht _ (by simp [lineTargets]))
+    · simp at h
+  case sahInit a i v =>
+    simp only [stepSimple] at h
+    split at h
+    · simp only [Option.some.injEq, Prod.mk.injEq] at h; obtain ⟨_, rfl⟩ := h
+      have hn : P "_c" := ht _ (by simp [lineTargets])
+      exact ⟨fun x hx => Sem.set_other _ _ _ _ (fun e => hx (e ▸ hn)), rfl, fun _ hs => hs⟩
+    · simp at h
+  case sah a i v d =>
+    simp only [stepSimple] at h
+    split at h
+    · simp only [Option.some.injEq, Prod.mk.injEq] at h; obtain ⟨_, rfl⟩ := h
+      have hn : P "_c" := ht _ (by simp [lineTargets])
+      exact ⟨fun x hx => Sem.set_other _ _ _ _ (fun e => hx (e ▸ hn)), rfl, fun _ hs => hs⟩
+    · simp at h
+  case sliceLoad t name index =>
+    simp only [stepSimple] at h
+    split at h
+    · simp only [Option.some.injEq, Prod.mk.injEq] at h; obtain ⟨_, rfl⟩ := h
+      exact framed_set P Q _ m _ _ (ht _ (by simp [lineTargets]))
+    · simp at h
+  case assignSliceLen n src =>
+    simp only [stepSimple] at h
+    split at h
+    · simp only [Option.some.injEq, Prod.mk.injEq] at h; obtain ⟨_, rfl⟩ := h
+      exact framed_set P Q _ m _ _ (ht _ (by simp [lineTargets]))
+    · simp at h
+  case assignStrLen n v =>
+    simp only [stepSimple, Option.some.injEq, Prod.mk.injEq] at h; obtain ⟨_, rfl⟩ := h
+    exact framed_set P Q _ m _ _ (ht _ (by simp [lineTargets]))
+  case sch dst src =>
+    simp only [stepSimple] at h
+    split at h
+    · simp only [Option.some.injEq, Prod.mk.injEq] at h; obtain ⟨_, rfl⟩ := h
+      exact ⟨fun _ _ => rfl, rfl, fun _ hs => hs⟩
+    · simp at h
+  case ssh v a b =>
+    simp only [stepSimple] at h
+    split at h
+    · split at h
+      · simp only [Option.some.injEq, Prod.mk.injEq] at h; obtain ⟨_, rfl⟩ := h
+        have h1 : P "_ls" := ht _ (by simp [lineTargets])
+        have h2 : P "_ll" := ht _ (by simp [lineTargets])
+        have h3 : P "_ret" := ht _ (by simp [lineTargets])
+        refine ⟨fun x hx => ?_, rfl, fun _ hs => hs⟩
+        have e3 : x ≠ "_ret" := fun e => hx (e ▸ h3)
+        have e2 : x ≠ "_ll" := fun e => hx (e ▸ h2)
+        have e1 : x ≠ "_ls" := fun e => hx (e ▸ h1)
+        show (((m.ρ.set "_ls" _).set "_ll" _).set "_ret" _) x = m.ρ x
+        rw [Sem.set_other _ _ _ _ e3, Sem.set_other _ _ _ _ e2, Sem.set_other _ _ _ _ e1]
+      · simp at h
+    · simp at h
   all_goals simp [stepSimple] at h
 
 theorem lookupFun_det {fs : List (String × List Cmd)} {name : String} {a b : List Cmd} (h1 : lookupFun fs name = some a) (h2 : lookupFun fs name = some b) : a = b := by
